@@ -936,6 +936,9 @@ def _check_methods(which, case, boo, S, sysd, psi, rng):
 
 
 UNITS = [LthOrder(), TimeAverage(), TimeCorr(), SpatialCorr(), Init()]
+# callee contracts of other properties used at call sites: their units are re-verified with this check
+from contracts.common import callee_units as _callee_units   # noqa: E402
+UNITS = UNITS + _callee_units([('C02', None), ('C05', {'read_neighbors'}), ('C14', None), ('C13', {'conditional_gr'}), ('C16', {'time_average'})], UNITS)
 
 
 # ---------------------------------------------------------------------------------------------------------------
